@@ -984,6 +984,9 @@ class NestedExtensionArray(ExtensionArray):
         if len(pa_array) != len(self):
             raise ValueError("The length of the list-array must be equal to the length of the series")
 
+        if isinstance(pa_array, pa.ChunkedArray):
+            pa_array = pa_array.combine_chunks()
+
         chunks = []
         for sl, chunk in enumerate_chunks(self._chunked_array):
             chunk = cast(pa.StructArray, chunk)
